@@ -2,6 +2,7 @@
 model parameter `H`; `verify` is instantiated as "the signature verifies iff it was really made
 for this (key, message)" from the table the harness supplies (idealised EUF-CMA). -/
 import DhtVerif.Model.Bep44
+import DhtVerif.Model.Bep44Fault
 import Driver.Util
 open Dht Dht.B44
 namespace Drv.B44
@@ -172,6 +173,24 @@ def stepSched (s : BSt) (threads steps results : String) : BSt × String :=
       else ({ s with store := y.store }, "reject:results:" ++ got)
   | _, _ => (s, "bad-op")
 
+/-! ### puts against a failing store (Model/Bep44Fault) -/
+
+/-- `none` | `get` (the Store.Get of this put fails with an ordinary error) | `put` (its Store.Put
+fails) | `both`. -/
+def parseFault : String → Option Fault
+  | "none" => some ⟨false, false⟩
+  | "get" => some ⟨true, false⟩
+  | "put" => some ⟨false, true⟩
+  | "both" => some ⟨true, true⟩
+  | _ => none
+
+/-- The datagrams the put handler sent, in the vocabulary of the harness's `replyCode`:
+`ok` (a response), `err:<code>` (an error); anything but exactly one datagram is spelled out. -/
+def answersStr : List PutAnswer → String
+  | [.response] => "ok"
+  | [.error c] => "err:" ++ toString c
+  | l => "answers:" ++ toString l.length
+
 /-! ### ops -/
 
 def stepB44 (s : BSt) (args : List String) : BSt × String :=
@@ -207,6 +226,17 @@ def stepB44 (s : BSt) (args : List String) : BSt × String :=
           ({ s with store := st }, errStr r)
         | none => (s, "bad-op")
       else (s, "bad-op")
+  | ["fput", fault, k, salt, seq, cas, bv, sig, sigKey, sigMsg] =>
+    -- inbound `put` (fields as in `put wire`) over a store whose Get / Put of THIS operation fails
+    match parseFault fault, addSig s sig sigKey sigMsg with
+    | some f, some s =>
+      match parseOptBytes k, parseBytes salt, (if seq == "-" then some none else (parseInt seq).map some),
+            parseInt cas, parseBytes bv, parseBytes sig with
+      | some k, some salt, some seq, some cas, some bv, some sig =>
+        let (ans, st) := handlePutF s.params f s.now s.store bv (k.getD (zeros 32)) salt sig cas seq
+        ({ s with store := st }, answersStr ans)
+      | _, _, _, _, _, _ => (s, "bad-op")
+    | _, _ => (s, "bad-op")
   | ["wget", t] =>
     match parseBytes t with
     | some t =>
